@@ -156,35 +156,52 @@ example : structValid (some 1) [Ty.u8, Ty.bool] [7, 2] = false ∧
     structValid (some 1) [Ty.u8, Ty.bool] [7, 1] = true := by decide
 
 /-- **The generated sized part has no padding, alignment 1, and checks every field.** For every
-`#[unsized_type]` struct (any `sized_attributes`, generic or not) whose `…Sized` struct compiles:
-its size is the sum of the field sizes, its alignment is 1, and its `is_valid_bit_pattern` accepts
-a byte string iff every field accepts its own slice (fields at the running sum of sizes). -/
-theorem sized_part_no_padding_and_checked (d : Decl) (x : FTy) (l : Layout)
+`#[unsized_type]` struct — any `sized_attributes`, generic or not, with or without
+`skip_phantom_generics` (`skip`), i.e. with or without the `_generics` marker that the macro puts
+last in the struct and first in the checked field list — whose `…Sized` struct compiles: its size
+is the sum of the user's field sizes, its alignment is 1, and its generated `is_valid_bit_pattern`
+(over `sizedCheckFields`) accepts a byte string iff EVERY user field, the first one included,
+accepts its own slice (fields at the running sum of sizes). -/
+theorem sized_part_no_padding_and_checked (skip : Bool) (d : Decl) (x : FTy) (l : Layout)
     (hf : ∀ f ∈ d.fields, ∀ t, f = .conc t → 0 < t.align) (hx : 0 < x.align)
-    (hacc : sizedPart d = .accept)
-    (hl : rustcLayout ((sizedPartDecl d).inst x) = some l) :
+    (hacc : sizedPart skip d = .accept)
+    (hl : rustcLayout ((sizedPartDecl skip d).inst x) = some l) :
     l.pad = 0 ∧ l.align = 1 ∧ l.size = sumSizes (d.fields.map (Field.inst x)) ∧
-    ∀ bytes, structValid (some 1) (d.fields.map (Field.inst x)) bytes = true ↔
+    ∀ bytes, structValid (some 1) (sizedCheckFields skip d x) bytes = true ↔
       ∀ i (h : i < (d.fields.map (Field.inst x)).length),
         ((d.fields.map (Field.inst x))[i]).valid
           ((bytes.drop (sumSizes ((d.fields.map (Field.inst x)).take i))).take
             ((d.fields.map (Field.inst x))[i]).size) = true := by
-  obtain ⟨h1, h2, h3⟩ := sizedPart_layout d x l hf hx hacc hl
-  exact ⟨h1, h2, h3, fun bytes => structValid_packed_iff _ bytes (alignPos_inst hf hx)⟩
+  obtain ⟨h1, h2, h3⟩ := sizedPart_layout skip d x l hf hx hacc hl
+  refine ⟨h1, h2, h3, fun bytes => ?_⟩
+  rw [structValid_marker]
+  exact structValid_packed_iff _ bytes (alignPos_inst hf hx)
 
 /-- non-vacuity: the sized part of `{ a: bool, b: u16, #[unsized_start] .. }` -/
-example : sizedPart ⟨.struct, false, [], [.conc Ty.bool, .conc Ty.u16], []⟩ = .accept ∧
-    rustcLayout ((sizedPartDecl ⟨.struct, false, [], [.conc Ty.bool, .conc Ty.u16], []⟩).inst Ty.u8)
+example : sizedPart false ⟨.struct, false, [], [.conc Ty.bool, .conc Ty.u16], []⟩ = .accept ∧
+    rustcLayout ((sizedPartDecl false ⟨.struct, false, [], [.conc Ty.bool, .conc Ty.u16], []⟩).inst Ty.u8)
       = some ⟨3, 1, 0⟩ := by decide
 
+/-- non-vacuity, marker-less generic layout (`#[unsized_type(skip_phantom_generics)]
+struct S<T> { a: bool, b: T, .. }` at `T = bool`): accepted, and an invalid byte in the FIRST field
+is refused exactly like one in the second; the same with the marker -/
+example : sizedPart true ⟨.struct, true, [], [.conc Ty.bool, .param], []⟩ = .accept ∧
+    structValid (some 1) (sizedCheckFields true ⟨.struct, true, [], [.conc Ty.bool, .param], []⟩ Ty.bool) [2, 0] = false ∧
+    structValid (some 1) (sizedCheckFields true ⟨.struct, true, [], [.conc Ty.bool, .param], []⟩ Ty.bool) [0, 2] = false ∧
+    structValid (some 1) (sizedCheckFields true ⟨.struct, true, [], [.conc Ty.bool, .param], []⟩ Ty.bool) [1, 1] = true ∧
+    structValid (some 1) (sizedCheckFields false ⟨.struct, true, [], [.conc Ty.bool, .param], []⟩ Ty.bool) [2, 0] = false ∧
+    (sizedCheckFields false ⟨.struct, true, [], [.conc Ty.bool, .param], []⟩ Ty.bool).length = 3 ∧
+    (sizedCheckFields true ⟨.struct, true, [], [.conc Ty.bool, .param], []⟩ Ty.bool).length = 2 := by
+  decide
+
 /-- a field type without `CheckedBitPattern` (or with `repr(align)`) in the sized part is rejected -/
-example : sizedPart ⟨.struct, false, [], [.conc Ty.na2], []⟩ = .reject := by decide
+example : sizedPart false ⟨.struct, false, [], [.conc Ty.na2], []⟩ = .reject := by decide
 
 /-- **A zero-sized element anywhere but last is rejected.** If an `#[unsized_type]` struct is
 accepted then, for every probed instantiation, every element of (sized part, tail…) except the last
 one has `ZST_STATUS = true` (is not zero sized). -/
-theorem zst_middle_rejected (d : Decl) (tail : List UTy) (insts : List FTy)
-    (hacc : acceptUnsized d tail insts = true) :
+theorem zst_middle_rejected (skip : Bool) (d : Decl) (tail : List UTy) (insts : List FTy)
+    (hacc : acceptUnsized skip d tail insts = true) :
     ∀ x ∈ insts, ∀ i, i + 1 < (zstElems d tail x).length → (zstElems d tail x)[i]? = some true := by
   intro x hx
   unfold acceptUnsized at hacc
@@ -193,9 +210,9 @@ theorem zst_middle_rejected (d : Decl) (tail : List UTy) (insts : List FTy)
 
 /-- non-vacuity: the three doctests of `unsize/mod.rs` -/
 example :
-    acceptUnsized ⟨.struct, false, [], [.conc Ty.u8], []⟩ [⟨false⟩] [Ty.u8] = true ∧
-    acceptUnsized ⟨.struct, false, [], [.conc Ty.unit], []⟩ [⟨true⟩] [Ty.u8] = false ∧
-    acceptUnsized ⟨.struct, false, [], [.conc Ty.u8], []⟩ [⟨false⟩, ⟨true⟩] [Ty.u8] = false := by
+    acceptUnsized false ⟨.struct, false, [], [.conc Ty.u8], []⟩ [⟨false⟩] [Ty.u8] = true ∧
+    acceptUnsized false ⟨.struct, false, [], [.conc Ty.unit], []⟩ [⟨true⟩] [Ty.u8] = false ∧
+    acceptUnsized true ⟨.struct, false, [], [.conc Ty.u8], []⟩ [⟨false⟩, ⟨true⟩] [Ty.u8] = false := by
   decide
 
 /-- **The documented valid forms keep compiling** (and the documented `compile_fail` forms stay
@@ -204,6 +221,6 @@ theorem documented_forms_accepted :
     documentedForms.all (fun (it, verdict) => acceptItem it == verdict) = true := by
   decide
 
-example : documentedForms.length = 15 := by decide
+example : documentedForms.length = 16 := by decide
 
 end Derive.C19
